@@ -256,6 +256,23 @@ def ellipsoid_rules(repo, rep, projections=False):
                 check_equal(rep, 'R-TABLE', 'R-TABLE::geodepy/constants.py::Ellipsoid.%s' % k, where(init, init.node), o.fields[k], w_,
                             'Ellipsoid.%s derived from the semi-major axis and the inverse flattening' % k)
     if projections:
+        pcls = m.classes.get('Projection')
+        if pcls is not None and pcls.init() is not None:
+            # the class stores what it is given - for every value, zero included (a false origin of 0 m, a central meridian of 0 degrees)
+            names = ('falseeast', 'falsenorth', 'cmscale', 'zonewidth', 'initialcm')
+            pinit = pcls.init()
+            pnames = [p.name for p in pinit.params if p.name != 'self']
+            args = dict((n, Rat.sym('P.' + n)) for n in pnames)
+            try:
+                o = ev.construct(pcls, [], dict(args), None)
+            except Exception:
+                o = None
+            for n in names:
+                key = 'R-TABLE::geodepy/constants.py::Projection.%s' % n
+                if o is None or n not in getattr(o, 'fields', {}) or n not in args:
+                    rep.undecided('R-TABLE', key, where(pinit, pinit.node), 'Projection(%s=...) could not be evaluated symbolically' % n)
+                else:
+                    check_equal(rep, 'R-TABLE', key, where(pinit, pinit.node), o.fields[n], args[n], 'Projection.%s is the constructor argument, whatever its value' % n)
         for name, vals in sorted(PROJECTIONS.items()):
             o = ev.global_value(m, name)
             key = 'R-TABLE::geodepy/constants.py::%s' % name
@@ -269,6 +286,140 @@ def ellipsoid_rules(repo, rep, projections=False):
             else:
                 rep.violated('R-TABLE', key, wm, '%s is defined as %s; the grid is defined by %s' % (name, [float(x) if x is not None else None for x in gf], list(vals)),
                              expected=str(list(vals)), actual=str(gf))
+
+
+
+
+def dtype_rule(repo, rep, funcs):
+    """numpy updates an array in place in the array's own dtype.  An array built with np.array(...) from the caller's numbers alone is an
+    integer array whenever those numbers are integers: `a += <float>` then raises (same-kind casting) and `a[i] = <float>` truncates.
+    The evaluator records every in-place update of such an array it meets; here the ones inside `funcs` are reported.  Call after the
+    property's evaluations."""
+    from ..symval import INPLACE_EVENTS
+    from ..symcheck import show
+    for mod, q in funcs:
+        f = repo.func(mod, q)
+        key = 'R-DTYPE::%s::%s::in-place' % (f.module.relpath, q)
+        seen = set()
+        bad = []
+        for fn, node, kind, arr, val in INPLACE_EVENTS:
+            if fn is None or getattr(fn, 'qualname', None) != q or getattr(fn.module, 'name', None) != mod:
+                continue
+            txt = stmt_text(node)[:100]
+            if txt in seen:
+                continue
+            seen.add(txt)
+            bad.append((node, kind, txt, arr, val))
+        if not bad:
+            rep.holds('R-DTYPE', key, where(f, f.node), 'no in-place update of an array whose element type follows the caller\'s numbers')
+        for node, kind, txt, arr, val in bad:
+            rep.violated('R-DTYPE', key, where(f, node), '`%s` updates in place an array built from the caller\'s numbers alone (%s): with integer arguments it is an '
+                         'integer array, and %s' % (txt, show(arr, 1, 80), 'adding a non-integer value to it in place raises a casting error' if kind == 'aug'
+                                                    else 'the stored value is truncated to an integer'),
+                         expected='a new array (a = a + b) or an explicit float dtype', actual=txt)
+
+
+def mutable_default_rule(repo, rep, modnames):
+    """a default value is evaluated once, at definition: a mutable one ({} / [] / set()) is shared by every call that leaves the argument out.
+    It is harmless while the function only reads it; stored on an object, returned, or updated, it becomes state shared between calls and
+    between objects (two grids read one after the other share one dict of sub-grids).  One instance per function with such a default."""
+    n = 0
+    for mn in modnames:
+        m = repo.module(mn)
+        for f in m.all_functions():
+            for p in f.params:
+                d = p.default
+                mutable = isinstance(d, (ast.Dict, ast.List, ast.Set, ast.ListComp, ast.DictComp, ast.SetComp)) or (
+                    isinstance(d, ast.Call) and isinstance(d.func, ast.Name) and d.func.id in ('dict', 'list', 'set', 'bytearray', 'defaultdict', 'OrderedDict'))
+                if not mutable:
+                    continue
+                n += 1
+                key = 'R-PURE::%s::%s::default(%s)' % (m.relpath, f.qualname, p.name)
+                leak = None
+                for node in ast.walk(f.node):
+                    if isinstance(node, ast.Assign) and any(isinstance(x, ast.Name) and x.id == p.name for x in ast.walk(node.value)) \
+                            and any(isinstance(t, (ast.Attribute, ast.Subscript)) for t in node.targets):
+                        leak = (node, 'is stored on an object (`%s`)' % stmt_text(node)[:70])
+                    elif isinstance(node, ast.Return) and node.value is not None and any(isinstance(x, ast.Name) and x.id == p.name for x in ast.walk(node.value)):
+                        leak = leak or (node, 'is returned to the caller')
+                    elif isinstance(node, (ast.Assign, ast.AugAssign)):
+                        tg = node.targets if isinstance(node, ast.Assign) else [node.target]
+                        for t in tg:
+                            b_ = t
+                            while isinstance(b_, (ast.Subscript, ast.Attribute)):
+                                b_ = b_.value
+                            if b_ is not t and isinstance(b_, ast.Name) and b_.id == p.name:
+                                leak = leak or (node, 'is updated in place (`%s`)' % stmt_text(node)[:70])
+                    elif isinstance(node, ast.Call) and isinstance(node.func, ast.Attribute) and isinstance(node.func.value, ast.Name) and node.func.value.id == p.name \
+                            and node.func.attr in ('append', 'extend', 'insert', 'pop', 'remove', 'clear', 'update', 'setdefault', 'add', 'discard', 'sort', 'reverse', 'popitem'):
+                        leak = leak or (node, 'is updated in place (`%s`)' % stmt_text(node)[:70])
+                if leak is None:
+                    rep.holds('R-PURE', key, where(f, f.node), 'the mutable default of %s is only read' % p.name)
+                else:
+                    rep.violated('R-PURE', key, where(f, leak[0]), 'the default value of parameter %s of %s is one %s object created at definition time and shared by every call that '
+                                 'omits the argument; it %s: later calls and other objects see what earlier ones put there' % (
+                                     p.name, f.qualname, type(d).__name__.lower() if not isinstance(d, ast.Call) else d.func.id, leak[1]),
+                                 expected='%s=None and a new object per call' % p.name, actual='%s=%s' % (p.name, stmt_text(d)[:40]))
+    if n == 0:
+        rep.holds('R-PURE', 'R-PURE::%s::no-mutable-defaults' % '+'.join(modnames), '%s:1' % repo.module(modnames[0]).relpath,
+                  'no function of %s has a mutable default argument' % ', '.join(modnames))
+
+# Integrated Survey Grid (NSW): zones 54, 55, 56 with sub-zones 1-3 and zone 57 sub-zone 2, written zone*10 + sub-zone
+ISG_ZONES = (541, 542, 543, 551, 552, 553, 561, 562, 563, 572)
+
+
+def isg_zone_rule(repo, rep, fname, zone_param, allow_zero, bind):
+    """with prj = isg the function accepts exactly the ten ISG zones (and 0 = automatic where the function computes the zone) - every zone
+    of the table passes every raising test, and numbers next to the table are rejected.  The raising tests are evaluated as predicates at
+    each zone value; the other inputs sit in the middle of their ranges."""
+    from ..symval import Evaluator
+    from .. import guards
+    from fractions import Fraction as F
+    m = repo.module('geodepy.convert')
+    mc = repo.module('geodepy.constants')
+    f = m.func(fname)
+    ev = Evaluator(repo, opaque={'psfandgridconv', 'beta_coeff', 'alpha_coeff', 'rect_radius'})
+    isg, ans = ev.global_value(mc, 'isg'), ev.global_value(mc, 'ans')
+    b = dict(bind)
+    b[zone_param] = Rat.sym('zone')
+    b['prj'] = isg
+    b['ellipsoid'] = ans
+    ev.call_function(f, b)
+    conds = [(c, n) for q, c, n in ev.raise_conds if q == f.qualname]
+    zid = alg.TABLE.syms['zone'].id
+    base = 'R-GUARD::%s::%s::isg-zone' % (f.module.relpath, fname)
+
+    def fires(z):
+        hit, unknown = None, False
+        for c, n in conds:
+            ids = set(c.atoms(deep=True)) if isinstance(c, Rat) else set()
+            others = [i for i in ids if alg.TABLE.atoms[i].kind == 'sym' and i != zid]
+            if others:
+                continue            # a test on another input
+            v = guards.numeval(c, {zid: F(z)})
+            if v is None:
+                unknown = True
+            elif v != 0:
+                hit = n
+        return hit, unknown
+    accept = list(ISG_ZONES) + ([0] if allow_zero else [])
+    for z in accept:
+        key = '%s(%d)' % (base, z)
+        hit, unk = fires(z)
+        if hit is not None:
+            rep.violated('R-GUARD', key, where(f, hit), '%s(prj=isg) raises for zone %d, one of the ten ISG zones%s: `if %s: raise`' % (
+                fname, z, ' (0 = compute the zone)' if z == 0 else '', stmt_text(hit.test)[:120]), expected='accepted', actual='raises')
+        elif unk:
+            rep.undecided('R-GUARD', key, where(f, f.node), 'a raising test could not be evaluated at zone %d' % z)
+        else:
+            rep.holds('R-GUARD', key, where(f, f.node), 'ISG zone %d passes every raising test on the zone' % z)
+    probes = [z for z in (540, 544, 550, 554, 560, 564, 571, 573, 55, 56) + (() if allow_zero else (0,)) if z not in accept]
+    missed = [z for z in probes if fires(z)[0] is None]
+    key = base + '(outside)'
+    if missed:
+        rep.violated('R-GUARD', key, where(f, f.node), '%s(prj=isg) accepts zone(s) %s, which are not ISG zones' % (fname, missed), expected='ValueError', actual='accepted')
+    else:
+        rep.holds('R-GUARD', key, where(f, f.node), 'numbers next to the ISG zone table (%s) are rejected' % ', '.join(str(z) for z in probes))
 
 
 ANGLE_CLASSES = ('DMSAngle', 'DDMAngle', 'DECAngle', 'HPAngle', 'GONAngle')
@@ -527,7 +678,7 @@ def state_rule(repo, rep, funcs, scope=None):
                     q, via, site.text[:100]), expected='no state kept between calls', actual=site.text[:200])
 
 
-def domain_guards(repo, rep, mod, q, symnames, domain, what, integer=(), opaque=()):
+def domain_guards(repo, rep, mod, q, symnames, domain, what, integer=(), opaque=(), suffix=''):
     """the function's own raising tests, decided as predicates over the input box of the property (none may fire inside)"""
     from .. import guards
     from ..symval import Evaluator
@@ -539,6 +690,6 @@ def domain_guards(repo, rep, mod, q, symnames, domain, what, integer=(), opaque=
         ev.call_function(f, args)
     except RecursionError:
         pass
-    n = guards.guard_rule(rep, 'R-GUARD', f, ev.raise_conds, domain, what, lambda nd: where(f, nd), integer=integer)
+    n = guards.guard_rule(rep, 'R-GUARD', f, ev.raise_conds, domain, what, lambda nd: where(f, nd), integer=integer, suffix=suffix)
     if n == 0:
-        rep.holds('R-GUARD', 'R-GUARD::%s::%s::no-own-tests' % (f.module.relpath, q), where(f, f.node), '%s has no raising input test of its own' % q)
+        rep.holds('R-GUARD', 'R-GUARD::%s::%s::no-own-tests%s' % (f.module.relpath, q, suffix), where(f, f.node), '%s has no raising input test of its own' % q)
